@@ -416,6 +416,7 @@ type DAGOpts struct {
 	ManifestSHA bool // only sha256 for manifests (registries, oci index)
 	UniqueBytes bool // every blob has distinct bytes
 	Wide        bool // manifests with many layers (contended permits)
+	EmbMeta     bool // index children may carry annotations / artifactType on the embedding descriptor
 }
 
 var defaultATs = []string{"application/vnd.verif.sig", "application/vnd.verif.sbom", "application/vnd.good"}
@@ -548,7 +549,20 @@ func Specs(t *rapid.T, o DAGOpts) []NodeSpec {
 							s.Layers = append(s.Layers, s.Layers[0])
 							continue
 						}
-						s.Layers = append(s.Layers, pickRef(manifests, "manifest"))
+						r := pickRef(manifests, "manifest")
+						if o.EmbMeta {
+							switch rapid.IntRange(0, 5).Draw(t, "embMeta") {
+							case 0:
+								r.Ann = map[string]string{"emb": "x"}
+							case 1:
+								if len(o.AnnKeys) > 0 {
+									r.Ann = map[string]string{rapid.SampledFrom(o.AnnKeys).Draw(t, "embK"): rapid.SampledFrom(o.AnnVals).Draw(t, "embV")}
+								}
+							case 2:
+								r.EmbAT = true
+							}
+						}
+						s.Layers = append(s.Layers, r)
 					}
 				}
 			case KArtifact:
